@@ -426,10 +426,31 @@ def installed(obs: Observer) -> Iterator[None]:
         rec = _cycle.get()
         d = depth.get()
         tok = depth.set(d + 1)
+        sp = None
+        if rec is not None and d == 1 and rec.get("pcc") is not None and kw.get("handlers") and kw.get("state") is not None:
+            # one sub-pass (`subhandling.execute`) of the parent handler being invoked right now
+            try:
+                parent = execution.handler_var.get()
+                st, cause_, settings_ = kw["state"], kw["cause"], kw["settings"]
+                sp = {"parent": str(parent.id), "selected": [str(h.id) for h in kw["handlers"]],
+                      "known": [str(k) for k in st], "reason": cause_.reason.value,
+                      "limits": {str(h.id): [None if h.timeout is None else to_ticks(h.timeout), h.retries] for h in kw["handlers"]},
+                      "P": _fetch_all(settings_.persistence.progress_storage, cause_.body, list(st)),
+                      "now": to_ticks(sim.now()), "outcomes": None, "now1": None}
+                rec["pcc"].setdefault("subpasses", []).append(sp)
+            except Exception as e:  # noqa: BLE001
+                sp = None
+                rec["pcc"].setdefault("subpasses", []).append({"error": repr(e)})
         try:
             out = await orig_exec(*a, **kw)
         finally:
             depth.reset(tok)
+        if sp is not None:
+            sp["outcomes"] = {
+                str(k): {"final": bool(o.final), "delay": None if o.delay is None else to_ticks(o.delay),
+                         "error": o.exception is not None, "subrefs": sorted(map(str, o.subrefs))}
+                for k, o in out.items()}
+            sp["now1"] = to_ticks(sim.now())
         if rec is not None and d == 0 and rec.get("pcc") is not None and rec["pcc"]["outcomes"] is None \
                 and kw.get("extra_context") is not None and "default_errors" not in kw:
             rec["pcc"]["outcomes"] = {
